@@ -5,9 +5,10 @@
    Worker.extract/_extract_single/_check/decompress; testzip; test_model = test()).
    Decoders, the header parser, the link-target validator are arbitrary functions
    (universally quantified below).  symcheck = "the symbolic-link branch of
-   _extract_single compares the CRC" (false on the unchanged tree), tzf = "testzip() reports a
-   folder-level CRC error" (false on the unchanged tree): the harness determines which
-   instance is the implementation's. *)
+   _extract_single compares the CRC" (false on the current tree: the harness determines which
+   instance is the implementation's and reports the defect); testzip_impl = testzip as it is
+   since commit 065e810 of /repo (a folder-level CRC error is reported); testzip false = the
+   code before that commit, kept as a regression example. *)
 From P7 Require Import Prelude Crc32 Damage.
 Open Scope Z_scope.
 
@@ -190,16 +191,42 @@ Print Assumptions C04_crc_chunks.
 
 (* ---- the integrity-test entry points ---------------------------------------------- *)
 
-(* testzip() = None  =>  every data member was decoded and its CRC matched: REFUTED on the
-   unchanged tree through the folder-level CRC path *)
-Theorem C04_testzip_sound_refuted :
+(* testzip() = None  =>  every data member was decoded and its CRC-32 matched the stored one *)
+Theorem C04_testzip_sound : forall dec s,
+  testzip_impl dec s = TZ None -> forall f, In f (all_data s) -> passes dec f.
+Proof. exact testzip_sound. Qed.
+Print Assumptions C04_testzip_sound.
+
+(* "never certifies as good an archive whose members would not extract": when testzip() returns
+   None, extraction of the same image succeeds, whatever the targets (no link created on disk) *)
+Theorem C04_testzip_none_extract_ok : forall symcheck link_ok dec s skip,
+  (forall l, In l (shape_lists s) -> forall f, In f l -> f_symlink f && tpath (f_tgt f) = false) ->
+  testzip_impl dec s = TZ None ->
+  exists out, worker_extract symcheck link_ok dec skip s = Done out.
+Proof. exact testzip_impl_none_extract_ok. Qed.
+Print Assumptions C04_testzip_none_extract_ok.
+
+(* hypotheses met, and a folder-level CRC error is reported *)
+Example C04_testzip_example :
+  let f (i : Z) (d : bytes) := mkFile i [i] false (Some (crc32 d)) false TMem in
+  let s := ManyFolders [f 1 [1]; f 2 [2; 2]] [[f 1 [1]]; [f 2 [2; 2]]] in
+  testzip_impl (fun i => DOk [[i]; if i =? 2 then [2] else []]) s = TZ None /\
+  testzip_impl (fun i => if i =? 2 then DFolderCrc else DOk [[i]]) s = TZFlag /\
+  testzip_impl (fun i => if i =? 2 then DOk [[2; 3]] else DOk [[i]]) s = TZ (Some 2).
+Proof. vm_compute. repeat split; reflexivity. Qed.
+
+(* Regression example -- the code before commit 065e810 (testzip false): a folder-level CRC
+   mismatch raised CrcError(crc, digest, None) and testzip() returned args[2] = None, "good",
+   for an archive that extraction rejects.  The harness reports a return to this behaviour. *)
+Theorem C04_testzip_unrepaired_regression_example :
   exists dec s f,
     testzip false dec s = TZ None /\ In f (all_data s) /\ ~ passes dec f /\
-    worker_extract false (fun _ => true) dec true s = Raised (XCrc None).
-Proof. exact testzip_sound_refuted. Qed.
-Print Assumptions C04_testzip_sound_refuted.
+    worker_extract false (fun _ => true) dec true s = Raised (XCrc None) /\
+    testzip_impl dec s = TZFlag.
+Proof. exact testzip_unrepaired_regression_example. Qed.
+Print Assumptions C04_testzip_unrepaired_regression_example.
 
-(* ... holds when no folder-level CRC error can occur, and for the repaired variant *)
+(* the general form, for both variants *)
 Theorem C04_testzip_sound_partial : forall tzf dec s,
   tzf = true \/ (forall f, In f (all_data s) -> dec (f_id f) <> DFolderCrc) ->
   testzip tzf dec s = TZ None ->
@@ -207,22 +234,14 @@ Theorem C04_testzip_sound_partial : forall tzf dec s,
 Proof. exact testzip_sound_partial. Qed.
 Print Assumptions C04_testzip_sound_partial.
 
-(* ... and then extraction of the same image succeeds, whatever the targets *)
-Theorem C04_testzip_none_extract_ok : forall tzf symcheck link_ok dec s skip,
-  tzf = true \/ (forall f, In f (all_data s) -> dec (f_id f) <> DFolderCrc) ->
-  (forall l, In l (shape_lists s) -> forall f, In f l -> f_symlink f && tpath (f_tgt f) = false) ->
-  testzip tzf dec s = TZ None ->
-  exists out, worker_extract symcheck link_ok dec skip s = Done out.
-Proof. exact testzip_none_extract_ok. Qed.
-Print Assumptions C04_testzip_none_extract_ok.
-
 Theorem C04_testzip_intact : forall tzf dec s,
   (forall f, In f (all_data s) -> passes dec f) -> testzip tzf dec s = TZ None.
 Proof. exact testzip_intact. Qed.
 Print Assumptions C04_testzip_intact.
 
 (* test(): True on an intact archive, or None when no packed CRC is stored (py7zr's writer stores
-   packed CRCs only for encrypted archives: Header.initialize, enable_digests = password given) *)
+   packed CRCs only for encrypted archives: Header.initialize, enable_digests = password given).
+   crcs holds one entry per packed stream (commit 8623e75), read only where defined. *)
 Theorem C04_test_intact : forall packpos defs sizes crcs body,
   streams_match defs sizes crcs packpos body ->
   test_model packpos defs sizes crcs body =
@@ -247,7 +266,7 @@ Proof. exact test_burst_detected. Qed.
 Print Assumptions C04_test_burst_detected.
 
 Example C04_test_example :
-  test_model 1 [true; false; true] [2; 1; 3] [crc32 [5; 6]; crc32 [8; 9; 10]] [0; 5; 6; 7; 8; 9; 10] = Ok (Some true) /\
-  test_model 1 [true; false; true] [2; 1; 3] [crc32 [5; 6]; crc32 [8; 9; 10]] [0; 5; 6; 7; 8; 9; 11] = Ok (Some false) /\
+  test_model 1 [true; false; true] [2; 1; 3] [crc32 [5; 6]; 0; crc32 [8; 9; 10]] [0; 5; 6; 7; 8; 9; 10] = Ok (Some true) /\
+  test_model 1 [true; false; true] [2; 1; 3] [crc32 [5; 6]; 0; crc32 [8; 9; 10]] [0; 5; 6; 7; 8; 9; 11] = Ok (Some false) /\
   test_model 1 [] [2; 1; 3] [] [0; 5; 6; 7; 8; 9; 10] = Ok None.
 Proof. exact test_example. Qed.
